@@ -96,6 +96,7 @@ func runC02(c *Ctx) {
 	c.r0211(pk)
 	c.r0212(pk)
 	c.alsoUnder(map[string]string{"R01.46": "R02.13"}, nil, func() { c.r0146(pk) })
+	c.r0214(pk)
 	c.R.Rule("R02.8", "R01.3 restricted to renamer.rename: every save `p := m.renamer.rename` is followed, on every path from the later assignment of the switch to a function exit, by the restore `m.renamer.rename = p` — a leaked `on` lets the rest of an enclosing function that contains `with` be renamed")
 	c.r013(pk, "R02.8", map[string]bool{"rename": true})
 }
@@ -1079,4 +1080,38 @@ func (c *Ctx) r0212(pk *packages.Package) {
 		return true
 	})
 	c.R.Floor(rule, "assignments of the class name in the parser", n, 2)
+}
+
+// R02.14: the renamer for the top level starts with the switch its scope asks for.
+func (c *Ctx) r0214(pk *packages.Package) {
+	const rule = "R02.14"
+	c.R.Rule(rule, "the functions compute the renaming switch from their own scope (`!decl.Body.Scope.HasWith && !m.o.KeepVarNames`); the top level has a scope of its own, whose let/const bindings in blocks are renamed too: `{let abc=1;with(o){abc}}` became `{let e=1;with(o)e}`, and `e` is looked up on o first. Every call of newRenamer passes a switch that consults the HasWith flag of a scope")
+	info := pk.TypesInfo
+	n := 0
+	for _, fd := range load.FuncDecls(pk) {
+		if fd.Body == nil {
+			continue
+		}
+		for _, call := range findCalls(info, fd.Body, false, load.Mod+"/js.newRenamer") {
+			if len(call.Args) < 1 {
+				continue
+			}
+			n++
+			good := false
+			ast.Inspect(call.Args[0], func(z ast.Node) bool {
+				if sel, ok := z.(*ast.SelectorExpr); ok && sel.Sel.Name == "HasWith" {
+					good = true
+				}
+				if id, ok := z.(*ast.Ident); ok {
+					if d := c.singleDef(pk, id); d != nil && strings.Contains(nospace(str(d)), ".HasWith") {
+						good = true
+					}
+				}
+				return true
+			})
+			c.R.Check(good, rule, fmt.Sprintf("js.%s/newRenamer#%d starts with the switch of its scope", load.FuncName(fd), n), c.pos(call), "the switch consults HasWith",
+				"the renamer is created with renaming on whatever the scope contains: at the top level `{let abc=1;with(o){abc}}` is printed as `{let e=1;with(o)e}`")
+		}
+	}
+	c.R.Floor(rule, "constructions of a renamer", n, 1)
 }
